@@ -204,16 +204,26 @@ class TaskingEngine(metaclass=ABCMeta):
         self._missed_observations.extend(valid_misses)
         self._saved_missed_observations.extend(valid_misses)
 
-    def updateFromAsyncTaskExecution(self, sensor_info_list: list) -> None:
+    def updateFromAsyncTaskExecution(self, sensor_info_list: list, target_id: int = -1) -> None:
         """Save Changes to sensor as a result of tasking.
+
+        Note:
+            A decision may task one sensor to several targets in a step (:class:`.AllVisibleDecision`), and their jobs
+            finish in any order. The sensor keeps the state reported by the job of the highest target ID, not the one
+            that happened to finish last.
 
         Args:
             sensor_info_list (list): list of dict
+            target_id (int, optional): ID of the target whose tasking produced these changes.
         """
         for sensor_info in sensor_info_list:
+            previous = self.sensor_changes.get(sensor_info["sensor_id"])
+            if previous is not None and previous["target_id"] > target_id:
+                continue
             self.sensor_changes[sensor_info["sensor_id"]] = {
                 "boresight": sensor_info["boresight"],
                 "time_last_tasked": sensor_info["time_last_tasked"],
+                "target_id": target_id,
             }
 
     def getCurrentMissedObservations(self) -> list[Observation]:
